@@ -78,13 +78,25 @@ deriving Repr, DecidableEq
 
 def Store.init : Store K := ⟨0, 0, 0⟩
 
-/-- `add_data` for one column: batched Welford update -/
-def addData (st : Store K) (batch : List K) : Store K :=
+/-- `add_data` for one column as it was before /repo 734a2d7 (deviations of the batch from the OLD mean) — kept
+    because the partition-invariance proof was first done for it; `addData_eq_old` relates the two -/
+def addDataOld (st : Store K) (batch : List K) : Store K :=
   let n := st.cnt + (batch.length : K)
   let delta1 := batch.map (fun x => x - st.mean)
   let mean' := st.mean + delta1.sum / n
   let delta2 := batch.map (fun x => x - mean')
   let m2' := st.m2 + ((delta1.zip delta2).map (fun p => p.1 * p.2)).sum
+  ⟨n, mean', m2'⟩
+
+/-- `add_data` for one column: the batch is merged through its own mean (pairwise update of Chan et al.):
+    `δ = mean_b − mean; mean += δ·n_b/N; M2 += Σ(x − mean_b)² + δ²·n_old·n_b/N` -/
+def addData (st : Store K) (batch : List K) : Store K :=
+  let nb : K := (batch.length : K)
+  let n := st.cnt + nb
+  let meanB := batch.sum / nb
+  let delta := meanB - st.mean
+  let mean' := st.mean + delta * nb / n
+  let m2' := st.m2 + ((batch.map (fun x => (x - meanB) * (x - meanB))).sum + delta * delta * st.cnt * nb / n)
   ⟨n, mean', m2'⟩
 
 /-- `state['scale']² = M2 / N` (the code stores the square root) -/
